@@ -1,4 +1,11 @@
 //@ inject crate=core src=quic/s2n-quic-core/src/ack/ranges.rs
+// OUTCOME (worker c06c08, not part of the registered checks): compiles and injects, but all three harnesses
+// (K = 0, 1, 2 stored ranges, limit 2, unwind 6) hit the 1700 s timeout on the shared machine (load 20-50).  A verbose
+// run of K = 0 shows CBMC still in symbolic execution after 400 s with only 142 loop unwindings logged (75 in
+// IntervalSet::binary_search_with, 42 in core::ptr::swap_nonoverlapping_bytes under VecDeque, 15 in check_integrity):
+// each symex step over VecDeque<Interval<PacketNumber>> is slow, it is not a path explosion.  Needs the helper
+// kani_injected_c08_interval_set_access.rs injected into interval_set/mod.rs.  To retry: copy both files to
+// contracts/kani/core/c08_ack_ranges.rs and contracts/kani/core/c08_interval_set_access.rs.
 // Contract harnesses for ack::Ranges::insert_packet_number_range -- properties C08 (an ACK names only packet numbers
 // handed to the set) and C16 ("a capacity-bounded ACK-range set discarding only its lowest ranges").
 // Predicates: contracts/spec/ack_ranges.rs (shared with verus/lemmas/C08.rs).
